@@ -211,6 +211,8 @@ class GenuineLedger(Device, Alterable, PubkeySwap):
                  signer_iteration=None):
         self.f = factory
         self.wallet_salt = wallet_salt           # varies the key of the last path only
+        self.best_block = factory.best_block     # blockchain state: moves on during a device's life
+        self.last_tx_hash = factory.last_tx_hash
         self.signer_iteration = (factory.signer_iteration if signer_iteration is None
                                  else signer_iteration)
         self.ui_page_size = ui_page_size
@@ -458,7 +460,7 @@ class GenuineLedger(Device, Alterable, PubkeySwap):
                 msg = L.legacy_message(self.f.signer_header, self.keys_hash())
             else:
                 msg = L.powhsm_message(self.f.signer_header, b"led", data, self.keys_hash(),
-                                       self.f.best_block, self.f.last_tx_hash[:8], 0)
+                                       self.best_block, self.last_tx_hash[:8], 0)
             if self.endorsement is None:
                 raise SW(ATT_INTERNAL)
             self.sg_att = msg
